@@ -87,8 +87,7 @@ def getitem_task(engine):
         ex.assume(z3.Implies(EX, z3.And(M >= 0, M < n, L.is_Dict(ex.heap.lelt(s, M)),
                                         ex.heap.dhas(Val.dref(ex.heap.lelt(s, M)), item))))
         env = Env()
-        env.vars['self'] = self_
-        env.vars['item'] = item
+        bind_positional(env, fi, [self_, item])
         ctx = {'env': env, 'entry': ex.heap.copy(), 'scopes': s, 'n': n, 'item': item,
                'ghost': {'M': M, 'EXISTS': EX}}
         ex.ctx = ctx
@@ -156,7 +155,7 @@ def setitem_task(engine):
         n = ex.heap.llen(s)
         ex.assume(L.is_Dict(ex.heap.lelt(s, n - 1)))
         env = Env()
-        env.vars.update({'self': self_, 'key': key, 'value': value})
+        bind_positional(env, fi, [self_, key, value])
         ctx = {'env': env, 'entry': ex.heap.copy(), 'scopes': s, 'n': n, 'key': key, 'value': value}
         ex.ctx = ctx
         return ctx
@@ -209,14 +208,14 @@ def pushpop_task(engine, name, contract):
         s = scopes_ref(ex, self_)
         n = ex.heap.llen(s)
         env = Env()
-        env.vars['self'] = self_
+        bind_positional(env, fi, [self_])
         ctx = {'env': env, 'scopes': s, 'n': n}
         if name == 'push_scope':
             scope = z3.Const('arg_scope', Val)
             # weakest precondition of the call sites: a dict, or a host mapping object that is not a dict
             ex.assume(z3.Or(L.is_Dict(scope), L.is_Opaque(scope)))
             ex.known(scope)
-            env.vars['scope'] = scope
+            bind_positional(env, fi, [self_, scope])
             ctx['scope'] = scope
         ctx['entry'] = ex.heap.copy()
         ex.ctx = ctx
